@@ -303,6 +303,16 @@ def sign_table(prog: Program, rep, m: FuncInfo, operand_text: str, table: Dict[s
         if mask is None:
             continue
         val = st.value
+        if isinstance(val, ast.Name):
+            # the projected part computed into a temporary first (`lower = np.minimum(g[at_lower], 0.0); g[at_lower] = lower`)
+            ds_ = [q for q in ff.order if q.index < si.index and isinstance(q.stmt, ast.Assign) and len(q.stmt.targets) == 1 and U(q.stmt.targets[0]) == val.id]
+            if len(ds_) == 1:
+                val = ds_[0].stmt.value
+        if isinstance(val, ast.Call) and isinstance(val.func, ast.Name):
+            # the projection may be held in a local (`clamp = np.minimum`)
+            fr_ = ff.resolved(st, val.func)
+            if isinstance(fr_, (ast.Attribute, ast.Name)):
+                val = ast.copy_location(ast.Call(func=fr_, args=val.args, keywords=val.keywords), val)
         kind = None
         src = None
         if np_call(val, "maximum", "minimum") and len(val.args) == 2 and const_value(val.args[1]) == 0:
@@ -366,16 +376,53 @@ def active_set_masks(prog: Program, rep) -> None:
     both = final("at_both")
     lower = final("at_lower")
     upper = final("at_upper")
-    ok_both = both is not None and np_call(both, "logical_and") and {canon(a) for a in both.args} in ({lo, up}, {lo, up2})
-    rep.check(ok_both, "active-set-masks", m.qualname, "self.at_both", "at_both = (|x-lb| <= tol) and (|ub-x| <= tol)", m.loc())
-    def excl(v, raw_opts):
-        if v is None or not np_call(v, "logical_and") or len(v.args) != 2:
-            return False
-        texts = [canon(a) for a in v.args]
-        nb = f"np.logical_not({canon(both)})" if both is not None else None
-        return nb in texts and any(r in texts for r in raw_opts)
-    rep.check(excl(lower, [lo]), "active-set-masks", m.qualname, "self.at_lower", "at_lower = (|x-lb| <= tol) and not at_both (masks are mutually exclusive)", m.loc())
-    rep.check(excl(upper, [up, up2]), "active-set-masks", m.qualname, "self.at_upper", "at_upper = (|ub-x| <= tol) and not at_both (masks are mutually exclusive)", m.loc())
+    # the three masks as boolean functions of L = (|x-lb| <= tol) and U = (|ub-x| <= tol), compared on all four valuations
+    from .common import UnknownAtom, mask_eval
+
+    def table(e):
+        if e is None:
+            return None
+        out = []
+        for L_ in (False, True):
+            for U_ in (False, True):
+                def av(t):
+                    k = _tol_atom(t)
+                    if k == _tol_atom(lo):
+                        return L_
+                    if k == _tol_atom(up):
+                        return U_
+                    raise UnknownAtom(t)
+                out.append(mask_eval(e, av))
+        return out
+    try:
+        tb, tl, tu = table(both), table(lower), table(upper)
+    except UnknownAtom as ex:
+        # the masks are DEFINED as functions of these two tests: a mask that depends on anything else is another function
+        rep.fail("active-set-masks", m.qualname, "masks", f"VIOLATED: an active-set mask is built from `{str(ex)[:90]}`, which is neither |x-lb| <= active_tol nor |ub-x| <= active_tol", m.loc())
+        return
+    # valuations in the order (L,U) = FF, FT, TF, TT
+    rep.check(tb == [False, False, False, True], "active-set-masks", m.qualname, "self.at_both", "at_both = (|x-lb| <= tol) and (|ub-x| <= tol)", m.loc())
+    rep.check(tl == [False, False, True, False], "active-set-masks", m.qualname, "self.at_lower", "at_lower = (|x-lb| <= tol) and not at_both (masks are mutually exclusive)", m.loc())
+    rep.check(tu == [False, True, False, False], "active-set-masks", m.qualname, "self.at_upper", "at_upper = (|ub-x| <= tol) and not at_both (masks are mutually exclusive)", m.loc())
+
+
+def _tol_atom(text: str):
+    """canonical key of a test `|a - b| <= tol` in any of its spellings (np.abs / np.absolute, operands of the difference swapped,
+    mirrored comparison `tol >= |..|`, np.isclose(a, b, rtol=0, atol=tol)); the text itself for anything else."""
+    try:
+        e = ast.parse(text, mode="eval").body
+    except SyntaxError:
+        return text
+    if isinstance(e, ast.Compare) and len(e.ops) == 1 and isinstance(e.ops[0], (ast.LtE, ast.GtE)):
+        l, r = (e.left, e.comparators[0]) if isinstance(e.ops[0], ast.LtE) else (e.comparators[0], e.left)
+        if np_call(l, "abs", "absolute") and len(l.args) == 1 and isinstance(l.args[0], ast.BinOp) and isinstance(l.args[0].op, ast.Sub):
+            return ("abs<=", frozenset((U(l.args[0].left), U(l.args[0].right))), U(r))
+    if np_call(e, "isclose") and len(e.args) == 2:
+        rt = kwarg(e, "rtol")
+        at = kwarg(e, "atol")
+        if rt is not None and const_value(rt) == 0 and at is not None:
+            return ("abs<=", frozenset((U(e.args[0]), U(e.args[1]))), U(at))
+    return text
 
 
 def implicit_funcs(prog: Program, rep) -> None:
